@@ -465,14 +465,6 @@ theorem step_ok {T : Tables} {C : Cert} (g : Good T C) (fail : Nat → Bool) {N 
 
 /-! ## the whole loop -/
 
-/-- the outcomes a checked parser can have on an input of `N` tokens -/
-def GoodOutcome (N : Nat) : Outcome → Prop
-  | .accept => True
-  | .syntaxError i => i ≤ N
-  | .actionError => True
-  | .panic => False
-  | .outOfFuel => False
-
 theorem run_ok {T : Tables} {C : Cert} (g : Good T C) (fail : Nat → Bool) {N : Nat} :
     ∀ (f : Nat) (c : Cfg) (evs : List Event), Inv T C N c → mu C c < f →
       GoodOutcome N (runFuel T fail f c evs).1 := by
@@ -492,10 +484,6 @@ theorem run_ok {T : Tables} {C : Cert} (g : Good T C) (fail : Nat → Bool) {N :
 
 theorem init_inv (T : Tables) (C : Cert) (input : List Int) : Inv T C input.length (init input) :=
   ⟨Chain.base, rfl, (by intro ch tok h; cases h), Or.inl (by simp [init])⟩
-
-/-- the fuel that always suffices: (tokens + 1) rounds of at most `maxRank + 1`
-reductions and a shift -/
-def fuelFor (C : Cert) (input : List Int) : Nat := (input.length + 1) * (C.maxRank + 2) + 1
 
 theorem posCount_le : ∀ (l : List Int), posCount l ≤ l.length
   | [] => Nat.le_refl _
